@@ -87,6 +87,15 @@ def Retains (a b : Genome W) : Prop :=
   ∀ n ∈ a.nodes, n.kind ≠ Kind.hidden → ∃ m ∈ b.nodes, m.id = n.id ∧ m.kind = n.kind
 instance (a b : Genome W) : Decidable (Retains a b) := by unfold Retains; infer_instance
 
+/-- common ancestry of two genomes (the quantifier of C04): an innovation number denotes the same link in both,
+    a node id the same role, and the trait lists carry the same ids -/
+def SameLineage (a b : Genome W) : Prop :=
+  (∀ x ∈ a.genes, ∀ y ∈ b.genes, x.inn = y.inn → x.link = y.link) ∧
+  (∀ n ∈ a.nodes, ∀ m ∈ b.nodes, n.id = m.id → n.kind = m.kind) ∧
+  traitIds a = traitIds b ∧
+  (a.nodes.filter (fun n => n.kind != Kind.hidden)).map (·.id) = (b.nodes.filter (fun n => n.kind != Kind.hidden)).map (·.id)
+instance (a b : Genome W) : Decidable (SameLineage a b) := by unfold SameLineage Gene.link; infer_instance
+
 /-- genetic equality apart from the genome id -/
 def Genome.sameGenetics (a b : Genome W) : Prop :=
   a.traits = b.traits ∧ a.nodes = b.nodes ∧ a.genes = b.genes ∧ a.modules = b.modules
